@@ -23,7 +23,7 @@ RULE = ("Generated: normalised monotonic smooth&decomposable circuits over 1..4 
         "built by the library's own templates; x fold x optimize x torch seed; N = 20000 samples. Oracle: exact "
         "joint table from the numpy reference (must sum to 1): (i) samples have shape (N, D) with integer in-domain "
         "values, (ii) no sample has reference probability 0, (iii) Pearson chi-square of the joint counts (cells "
-        "with expectation < 5 pooled), violation iff p < 1e-9. TypeError 'sampling not supported' is a documented "
+        "with expectation < 25 pooled; a pooled cell that is still small is merged into a large one), violation iff p < 1e-9. TypeError 'sampling not supported' is a documented "
         "refusal. Non-trivial = sampled and (a sum of arity > 1, or > 2 states for some variable, or a Kronecker "
         "layer) and the joint is not uniform; distinct = hash of case.")
 ASSUMPTIONS = ["statistical oracle: false-alarm probability 1e-9 per case; defects moving the joint by < ~2% in total "
@@ -190,14 +190,24 @@ def run_case(case):
         raise Violation("sample-support", f"{feat}:zero-probability-sample",
                         f"{int(counts[zero].sum())} samples with probability 0, e.g. {states[k]} x{int(counts[k])}")
     exp = N * p
-    big = exp >= 5
-    chi = float(np.sum((counts[big] - exp[big]) ** 2 / exp[big]))
-    dof = int(big.sum()) - 1
-    if (~big & ~zero).any():
-        e_rest = exp[~big].sum()
-        if e_rest > 0:
-            chi += (counts[~big].sum() - e_rest) ** 2 / e_rest
-            dof += 1
+    # Pearson chi-square on cells with a large expectation only: cells with expectation < 25 are pooled, and a pooled
+    # cell that is still small is merged into the smallest large cell (the chi-square tail is not valid for small
+    # expectations: one sample in a cell with expectation 0.01 is a 1% event, not a 1e-22 one)
+    MIN_EXP = 25.0
+    big = exp >= MIN_EXP
+    cells_o = list(counts[big])
+    cells_e = list(exp[big])
+    o_rest, e_rest = float(counts[~big].sum()), float(exp[~big].sum())
+    if e_rest >= MIN_EXP:
+        cells_o.append(o_rest)
+        cells_e.append(e_rest)
+    elif cells_e:
+        j = int(np.argmin(cells_e))
+        cells_o[j] += o_rest
+        cells_e[j] += e_rest
+    cells_o, cells_e = np.array(cells_o), np.array(cells_e)
+    chi = float(np.sum((cells_o - cells_e) ** 2 / cells_e)) if len(cells_e) > 1 else 0.0
+    dof = len(cells_e) - 1
     pval = float(stats.chi2.sf(chi, dof)) if dof > 0 else 1.0
     if pval < P_THRESHOLD:
         # which single-variable marginal is most off (helps reading the replay)
